@@ -204,7 +204,7 @@ def gen_history(rng, nev=None):
         elif x < 0.92:
             evs.append(gen_req(rng, "get", ncli, nres, mids, toks))
         elif x < 0.945:
-            evs.append("err:%d:%d" % (rng.randrange(nres), rng.choice([0, 1, 1])))
+            evs.append("err:%d:%d" % (rng.randrange(nres), rng.choice([0, 1, 1, 2, 3])))
         elif x < 0.97:
             evs.append("lost:%d" % rng.randrange(ncli))
         elif x < 0.985 or style < 0.5:
@@ -429,7 +429,7 @@ def gen_token_length_history(rng):
                 # simply not used again (an over-approximation of what is registered keeps the registry unambiguous)
             elif x < 0.95 and mine:
                 k, (r, q, t) = rng.choice(mine)            # the handler refuses a refresh: that observation ends
-                evs.append("err:%d:1" % r)
+                evs.append("err:%d:%d" % (r, rng.choice([1, 1, 2, 3])))
                 req(rng.choice(["reg", "get"]), c, r, t, q)
                 evs.append("err:%d:0" % r)
             else:
@@ -537,7 +537,7 @@ def gen_block_history(rng):
             if r in bidx:
                 evs.append(blk(c, r, t, q, rng.choice([0, 1, 1, 2, 2, 3, 200])))
         elif x < 0.93:
-            evs.append("err:%d:%d" % (rng.randrange(nres), rng.choice([0, 1])))
+            evs.append("err:%d:%d" % (rng.randrange(nres), rng.choice([0, 1, 2, 3])))
         elif x < 0.96:
             evs.append("lost:%d" % rng.randrange(ncli))
         else:
@@ -594,6 +594,15 @@ def consts_of(ctx):
     return d
 
 
+def abstract_error_code(line, trace):
+    """M's `err` event only knows THAT the handler answers with an error (it prints 4.04 = 132): on a line whose handler is switched
+    to 5.03 / 5.00 (err:r:2 / err:r:3) those two codes are mapped to 132 before the comparison with M.  The oracle above reads
+    the implementation's own trace with the real codes."""
+    if re.search(r"\berr:\d+:[23]\b", line):
+        return re.sub(r":16[03]:", ":132:", trace)
+    return trace
+
+
 def judge(ctx, c):
     i, m = c["impl"], c["model"]
     if i is None:
@@ -615,8 +624,8 @@ def judge(ctx, c):
         if m != O.NOT_MODELLED:
             return ("tie", "block-wise line: the driver must answer `%s`, it says `%s`" % (O.NOT_MODELLED, (m or "")[:100]))
         return ("spec", "[%s] %s" % viol[0]) if viol else None
-    if m is None or strip_client(i) != m:
-        return ("tie", first_diff(strip_client(i), m or ""))
+    if m is None or abstract_error_code(c["input"], strip_client(i)) != m:
+        return ("tie", first_diff(abstract_error_code(c["input"], strip_client(i)), m or ""))
     if viol:
         return ("spec", "[%s] %s" % viol[0])
     return None
